@@ -18,22 +18,86 @@ def _solver(timeout_ms):
     return s
 
 
-def check(constraints, timeout_ms=20000, use_cvc5=True, cvc5_timeout_s=30, want_model=True):
-    """returns (verdict, model_or_None, backend, seconds)"""
+def _forked(constraints, timeout_ms, extract=None):
+    """z3 check in a forked child with a hard wall-clock limit (z3's own timeout is not honoured
+    inside some sequence-solver loops).  -> (verdict, extracted_or_None)"""
+    import json
+    import select
+    import signal
+    r, w = os.pipe()
+    pid = os.fork()
+    if pid == 0:
+        code = 0
+        try:
+            os.close(r)
+            s = _solver(timeout_ms)
+            for c in constraints:
+                s.add(c)
+            res = s.check()
+            if res == z3.sat:
+                payload = {'v': 'sat', 'x': extract(s.model()) if extract is not None else None}
+            elif res == z3.unsat:
+                payload = {'v': 'unsat'}
+            else:
+                payload = {'v': 'unknown'}
+            data = json.dumps(payload, default=repr).encode('utf-8')
+            off = 0
+            while off < len(data):
+                off += os.write(w, data[off:off + 65536])
+        except BaseException:
+            code = 1
+        finally:
+            os._exit(code)
+    os.close(w)
+    deadline = time.time() + timeout_ms / 1000.0 + 2.0
+    chunks = []
+    verdict = None
+    while True:
+        left = deadline - time.time()
+        if left <= 0:
+            verdict = 'timeout'
+            break
+        rl, _, _ = select.select([r], [], [], left)
+        if not rl:
+            verdict = 'timeout'
+            break
+        b = os.read(r, 1 << 16)
+        if not b:
+            break
+        chunks.append(b)
+    if verdict == 'timeout':
+        try:
+            os.kill(pid, signal.SIGKILL)
+        except OSError:
+            pass
+    os.close(r)
+    os.waitpid(pid, 0)
+    if verdict == 'timeout' or not chunks:
+        return 'unknown', None
+    try:
+        payload = json.loads(b''.join(chunks).decode('utf-8'))
+    except ValueError:
+        return 'unknown', None
+    return payload['v'], payload.get('x')
+
+
+def check(constraints, timeout_ms=20000, use_cvc5=True, cvc5_timeout_s=30, extract=None):
+    """returns (verdict, extracted_model_values_or_None, backend, seconds); a 'sat' from
+    cvc5 carries no model.  extract(model) must return JSON-able data (runs in the child)."""
     t0 = time.time()
-    s = _solver(timeout_ms)
-    for c in constraints:
-        s.add(c)
-    r = s.check()
+    r, x = _forked(constraints, timeout_ms, extract)
     dt = time.time() - t0
     STATS['z3_n'] += 1
     STATS['z3_s'] += dt
-    if r == z3.sat:
-        return 'sat', (s.model() if want_model else None), 'z3', dt
-    if r == z3.unsat:
+    if r == 'sat':
+        return 'sat', (x if extract is not None else True), 'z3', dt
+    if r == 'unsat':
         return 'unsat', None, 'z3', dt
     if use_cvc5:
         t1 = time.time()
+        s = z3.Solver()
+        for c in constraints:
+            s.add(c)
         v, out = cvc5_check(s.to_smt2(), cvc5_timeout_s)
         dt2 = time.time() - t1
         STATS['cvc5_n'] += 1
@@ -50,15 +114,12 @@ def check(constraints, timeout_ms=20000, use_cvc5=True, cvc5_timeout_s=30, want_
 def feasible(constraints, timeout_ms=3000):
     """quick feasibility used for path pruning: 'yes' / 'no' / 'maybe'"""
     t0 = time.time()
-    s = _solver(timeout_ms)
-    for c in constraints:
-        s.add(c)
-    r = s.check()
+    r, _ = _forked(constraints, timeout_ms)
     STATS['prune_n'] += 1
     STATS['prune_s'] += time.time() - t0
-    if r == z3.sat:
+    if r == 'sat':
         return 'yes'
-    if r == z3.unsat:
+    if r == 'unsat':
         return 'no'
     return 'maybe'
 
